@@ -279,15 +279,90 @@ fn store_api(report: &Report, k: u32) {
     report.family(FamilyStat { name, cases: total, nontrivial: nontriv.load(Ordering::Relaxed), skipped: 0, note: format!("ops = get/try_get/contains/names x {:?}", API_NAMES) });
 }
 
+
+/// Partial *sources* of every lexical shape.  The scenario family varies the caller over a fixed
+/// partial library; here the caller is fixed and the partial's text is every sequence of <= k
+/// items from a lexical alphabet (plain text, lone `{ } %`, quotes, non-ASCII, output / tag / block
+/// markup with and without trim markers, raw, comment, and broken markup).  Whatever a policy does
+/// with a source before or instead of parsing it (a shortcut for "static" text, a pre-scan, a
+/// normalisation) must not be observable: the three policies agree on include and on render, and
+/// a second use equals the first.
+fn partial_sources(report: &Report, k: u32) {
+    let items = [
+        "a", " ", "\n", "{", "}", "%", "{ ", "'", "\"", "é", "{{ x }}", "{{- x -}}", "{% if x %}T{% endif %}", "{%- assign y = 'Y' -%}{{ y }}", "{% raw %}{{ r }}{% endraw %}",
+        "{% comment %}c{% endcomment %}", "{{ !! }}", "{% if", "{% endif %}", "{{ x",
+    ];
+    let n = items.len() as u64;
+    let total = seq_count(n, k);
+    let name = format!("partial-sources/items<={k}");
+    let nontriv = AtomicU64::new(0);
+    let main = "<{% include 'p' %}|{% render 'p', x: x %}|{% include 'p' %}>";
+    let data = cfgs::globals(&[("x", crate::val::V::s("X"))]);
+    par_range(
+        report,
+        &name,
+        total,
+        |i| {
+            let body: String = seq_decode(i, n, k).iter().map(|t| items[*t as usize]).collect();
+            let partials = vec![("p".to_string(), body.clone())];
+            let w = || json!({"kind":"policies","template":main,"data":{"x":"X"},"partials":partials});
+            let mut outs: Vec<(String, String)> = Vec::new();
+            for pol in POLICIES {
+                report.evals(2);
+                let r = guard(|| -> Result<(Outcome, Outcome), String> {
+                    let parser = cfgs::build(Config::Stdlib, pol, &partials)?;
+                    let t = parser.parse(main).map_err(|e| e.to_string())?;
+                    Ok((render_once(&t, &data), render_once(&t, &data)))
+                });
+                match r {
+                    Err(pi) => {
+                        report.violation(&format!("C19|partial-sources|{}", pi.sig()), i, w(), pi.describe());
+                        return;
+                    }
+                    Ok(Err(e)) => {
+                        report.violation("C19|build-or-main-parse-fails-because-of-a-partial", i, w(), format!("{pol:?}: {e}"));
+                        return;
+                    }
+                    Ok(Ok((a, b))) => {
+                        if norm(&a) != norm(&b) {
+                            report.violation("C19|partial-sources|second-use-differs", i, w(), format!("{pol:?}: first {} then {}", a.short(), b.short()));
+                        }
+                        outs.push((format!("{pol:?}"), norm(&a)));
+                    }
+                }
+            }
+            if outs.iter().any(|(_, o)| *o != outs[0].1) {
+                let mut wj = w();
+                wj["outcomes"] = json!(outs);
+                report.violation("C19|partial-sources|policies-disagree", i, wj, format!("partial {body:?}: {outs:?}"));
+            } else {
+                if outs[0].1.starts_with("ok:") {
+                    nontriv.fetch_add(1, Ordering::Relaxed);
+                }
+                if i % 13 == 0 {
+                    report.outcome(&outs[0].1);
+                }
+            }
+        },
+        |i| json!({"kind":"policies","template":main,"partials":[["p", seq_decode(i, n, k).iter().map(|t| items[*t as usize]).collect::<String>()]]}),
+    );
+    report.states.fetch_add(total, Ordering::Relaxed);
+    report.transitions.fetch_add(total * 6, Ordering::Relaxed);
+    report.traces.fetch_add(total, Ordering::Relaxed);
+    report.nontrivial.fetch_add(nontriv.load(Ordering::Relaxed), Ordering::Relaxed);
+    report.family(FamilyStat { name, cases: total, nontrivial: nontriv.load(Ordering::Relaxed), skipped: 0, note: format!("partial text = every sequence of <= {k} of {} lexical items; caller includes, renders and includes it again under the three policies", items.len()) });
+}
+
 /// silence unused warning for Partial import in some configurations
 #[allow(dead_code)]
 fn _t(_: Partial) {}
 
 pub fn run(tier: Tier) -> i32 {
     let report = Report::new("C19", tier, "model_checking");
-    report.set_rule("(i) every generated C08 scenario (main template x 15-partial library with a broken and an absent partial x 2 data) rendered d0,d1,d0 on one parser per compilation policy: the three policies must agree on every output / first error line, the third use must equal the first, and renders that per the reference interpreter do not reach the broken partial must be unchanged when it is replaced by a valid one or removed; (ii) all sequences of <= k PartialStore API calls (get/try_get/contains/names x 5 names) on three fresh stores over one source: observation sequences must be identical across stores, repeated calls identical, get/try_get agree; states = scenarios + call sequences, transitions = renders + API calls, traces_validated = scenarios/sequences compared across the three implementations");
+    report.set_rule("(i) every generated C08 scenario (main template x 15-partial library with a broken and an absent partial x 2 data) rendered d0,d1,d0 on one parser per compilation policy: the three policies must agree on every output / first error line, the third use must equal the first, and renders that per the reference interpreter do not reach the broken partial must be unchanged when it is replaced by a valid one or removed; (ii) all sequences of <= k PartialStore API calls (get/try_get/contains/names x 5 names) on three fresh stores over one source: observation sequences must be identical across stores, repeated calls identical, get/try_get agree; states = scenarios + call sequences, transitions = renders + API calls, (iii) partial sources of every lexical shape (all sequences of <= k lexical items incl. lone braces, quotes, trim markers, raw, comment, broken markup) included and rendered under the three policies; traces_validated = scenarios/sequences compared across the three implementations");
     report.assume("sources are in-memory with a truthful name listing (as the statement says)");
     scenarios(&report, if tier.thorough() { 3 } else { 2 });
     store_api(&report, if tier.thorough() { 4 } else { 3 });
+    partial_sources(&report, if tier.thorough() { 4 } else { 3 });
     report.finish()
 }
